@@ -99,10 +99,216 @@ def check_stream(prop, tier, seed, only=None, outdir=None):
     return res
 
 
+# --------------------------------------------------------------------------- C05 / C06 (par)
+PAR_INV = ("TypeOK BufferInOnePlace NoDuplicatesInQueues LockDiscipline FrameNumbering SinkComplete "
+           "HashedInOrder NoLeak NoPanic SameKindAsSequential")
+
+
+def par_cfg(path, Ws, Ns, fails, bads, fills, pqcap=2, props=True, variant="repaired"):
+    def tset(xs):
+        return "{" + ", ".join(xs) + "}"
+    txt = "SPECIFICATION Spec\nCONSTANTS\n"
+    txt += f"  Ws = {tset(map(str, Ws))}\n  Ns = {tset(map(str, Ns))}\n  M = 2\n  PQCAP = {pqcap}\n"
+    txt += f"  FailAts = {tset(map(str, fails))}\n"
+    txt += "  BadSets = " + tset(tset(map(str, b)) for b in bads) + "\n"
+    txt += f"  EofFills = {tset('TRUE' if f else 'FALSE' for f in fills)}\n  Variant = \"{variant}\"\n"
+    txt += f"INVARIANTS {PAR_INV}\n"
+    if props:
+        txt += "PROPERTIES Termination AllThreadsEnd\n"
+    txt += "CHECK_DEADLOCK FALSE\n"
+    open(path, "w").write(txt)
+    return path
+
+
+def tlc_ok(r, what):
+    if r["rc"] != 0 or "No error has been found" not in r["out"]:
+        save = os.path.join(vlib.WORK, f"tlc_error_{r['tag']}.txt")
+        open(save, "w").write(r["out"])
+        bad = [l for l in r["out"].splitlines() if "is violated" in l or "Error:" in l][:3]
+        raise ToolError(f"TLC run {what} failed (rc={r['rc']}): {bad}; output in {save}")
+
+
+def par_model_check(tier, faulty, tag):
+    """Exhaustive TLC check of ParEncoder.tla (design level).  Returns (states, transitions, scope)."""
+    d = os.path.join(vlib.WORK, "parcfg")
+    os.makedirs(d, exist_ok=True)
+    if faulty:
+        scopes = [dict(Ws=[1, 2], Ns=[0, 1, 2], fails=[0, 1, 2, 99], bads=[[], [0], [1], [0, 1]], fills=[True, False])]
+        if tier == "thorough":
+            scopes += [dict(Ws=[2], Ns=[3], fails=[0, 1, 2, 3, 99], bads=[[], [0], [1], [2], [0, 2], [1, 2]], fills=[True, False]),
+                       dict(Ws=[3], Ns=[2, 3], fails=[0, 1, 2, 99], bads=[[], [0], [1]], fills=[True])]
+    else:
+        scopes = [dict(Ws=[1, 2], Ns=[0, 1, 2, 3], fails=[99], bads=[[]], fills=[True, False])]
+        if tier == "thorough":
+            scopes += [dict(Ws=[3], Ns=[3, 4], fails=[99], bads=[[]], fills=[True, False]),
+                       dict(Ws=[2], Ns=[5], fails=[99], bads=[[]], fills=[True]),
+                       dict(Ws=[4], Ns=[2], fails=[99], bads=[[]], fills=[True])]
+    states = trans = 0
+    for i, sc in enumerate(scopes):
+        cfg = par_cfg(os.path.join(d, f"{tag}_mc{i}.cfg"), **sc)
+        r = vlib.run_tlc("ParEncoder.tla", cfg, tag=f"{tag}mc{i}", workers=8, xmx="8g", timeout=3000)
+        tlc_ok(r, f"ParEncoder {sc}")
+        states += r["states"]
+        trans += r["generated"]
+    return states, trans, scopes
+
+
+def par_replay(tier, scenarios, tag, res, prop):
+    """TLC dumps the state graph of each scenario; every edge is covered by a path; the paths are
+    replayed on the real threads under the deterministic scheduler."""
+    d = os.path.join(vlib.WORK, "pargraph")
+    os.makedirs(d, exist_ok=True)
+    tot = dict(edges=0, covered=0, paths=0, steps=0, divergences=0, graph_states=0)
+    sample = None
+    import subprocess
+    for i, sc in enumerate(scenarios):
+        cfg = par_cfg(os.path.join(d, f"{tag}_{i}.cfg"), [sc["W"]], [sc["N"]], [sc["fail"]], [sc["bad"]], [sc["fill"]],
+                      pqcap=16, props=False)
+        dot = os.path.join(d, f"{tag}_{i}.dot")
+        r = vlib.run_tlc("ParEncoder.tla", cfg, tag=f"{tag}g{i}", workers=4, xmx="4g", timeout=1500,
+                         extra=["-dump", "dot,actionlabels", dot])
+        tlc_ok(r, f"graph dump {sc}")
+        js = os.path.join(d, f"{tag}_{i}.json")
+        g = subprocess.run([sys.executable, os.path.join(vlib.VERIF, "tools", "graph.py"), dot, js,
+                            "--max-paths", str(sc.get("max_paths", 0)), "--seed", str(sc.get("seed", 1))],
+                           stdout=subprocess.PIPE, text=True)
+        if g.returncode != 0:
+            raise ToolError("graph.py failed")
+        gi = json.loads(g.stdout.strip().splitlines()[-1])
+        os.remove(dot)
+        args = ["sched-replay", "--paths", js, "--w", sc["W"], "--n", sc["N"],
+                "--fail", "none" if sc["fail"] == 99 else sc["fail"], "--bad", ",".join(map(str, sc["bad"])),
+                "--eoffill", "true" if sc["fill"] else "false", "--ch", 1 + i % 2, "--last", [32, 17, 1][i % 3]]
+        out = vlib.run_fv(args, timeout=3000)
+        tot["edges"] += gi["edges"]
+        tot["covered"] += gi["covered"]
+        tot["graph_states"] += gi["states"]
+        tot["paths"] += out["replayed"]
+        tot["steps"] += out["steps"]
+        tot["divergences"] += out["ndiv"]
+        if sample is None and out.get("sample"):
+            sample = dict(scenario=sc, **out["sample"])
+        for dv in out["divergences"][:3]:
+            print(f"MODEL-DIVERGENCE property={prop} scenario={sc} {dv['what'][0][:300]}")
+        for v in out["violations"]:
+            mine = [w for w in v["what"] if w.startswith(prop)]
+            if not mine:
+                continue
+            res.failures.append(dict(
+                key=f"{prop} replay {'; '.join(mine)} scenario W={sc['W']} N={sc['N']} fail={sc['fail']} bad={sc['bad']} fill={sc['fill']}",
+                what=f"scenario {sc}: " + "; ".join(mine), name=f"replay-{tag}-{i}-{v['path']}",
+                replay=dict(property=prop, kind="sched", harness_args=args, schedule=v["schedule"], case=v["case"], what=mine)))
+    return tot, sample
+
+
+def par_random(tier, seed, faults, tag, res, prop, runs):
+    out = os.path.join(vlib.WORK, "par", f"{tag}.ndjson")
+    args = ["sched-random", "--runs", runs, "--seed", seed, "--maxw", 4, "--maxn", 7 if tier == "thorough" else 5, "--out", out]
+    if not faults:
+        args.append("--nofaults")
+    summ = vlib.run_fv(args, timeout=3000)
+    for v in summ["violations"]:
+        mine = [w for w in v["what"] if w.startswith(prop)]
+        if mine:
+            c = v["case"]
+            res.failures.append(dict(
+                key=f"{prop} random-schedule {'; '.join(mine)} W={c['workers']} N={c['nblocks']} fail={c['fail_at']} bad={c['bad']} fill={c['fill_at_eof']}",
+                what=f"case {c['id']}: " + "; ".join(mine), name=c["id"],
+                replay=dict(property=prop, kind="sched", harness_args=args, schedule=v["schedule"], case=c, what=mine)))
+    verdicts, states, trans, outs = vlib.run_trace_shards("TracePar.tla", "TracePar.cfg", [out], tagp=tag)
+    ok = div = 0
+    for cid, (v, msgs) in verdicts.items():
+        if v == "pass":
+            ok += 1
+            continue
+        if v == "DIVERGED":
+            div += 1
+            print(f"MODEL-DIVERGENCE property={prop} case={cid} {' '.join(msgs)[:300]}")
+            continue
+        mine = [m for m in msgs if m.startswith(prop)]
+        if mine:
+            res.failures.append(dict(key=f"{prop} trace {'; '.join(mine)}", what=f"case {cid}: " + "; ".join(mine), name=cid,
+                                     replay=dict(property=prop, kind="sched", harness_args=args, case=cid, what=mine),
+                                     trace_lines=vlib.extract_case([out], cid)))
+    return dict(runs=summ["runs"], steps=summ["steps"], classes=summ["classes"], accepted=ok, diverged=div,
+                states=states, transitions=trans, samples=summ["samples"])
+
+
+def par_free(tier, seed, res, prop):
+    summ = vlib.run_fv(["par-free", "--seed", seed, "--tier", tier], timeout=3000)
+    for v in summ["violations"]:
+        mine = [w for w in v["what"] if w.startswith(prop)]
+        if mine:
+            c = v["case"]
+            res.failures.append(dict(
+                key=f"{prop} free-run {'; '.join(mine)} env={v.get('env')} W={c['workers']} N={c['nblocks']} fail={c['fail_at']} bad={c['bad']}",
+                what=f"case {c['id']} env FLACENC_WORKERS={v.get('env')!r}: " + "; ".join(mine), name=c["id"],
+                replay=dict(property=prop, kind="free", case=c, env=v.get("env"), what=mine)))
+    return summ
+
+
+def scenarios_for(prop, tier):
+    sc = []
+    if prop == "C05":
+        sc.append(dict(W=2, N=2, fail=99, bad=[], fill=True, max_paths=0 if tier == "thorough" else 1200))
+        sc.append(dict(W=1, N=3, fail=99, bad=[], fill=False))
+        sc.append(dict(W=3, N=1, fail=99, bad=[], fill=True, max_paths=0 if tier == "thorough" else 400))
+        if tier == "thorough":
+            sc.append(dict(W=2, N=3, fail=99, bad=[], fill=True, max_paths=20000))
+            sc.append(dict(W=3, N=2, fail=99, bad=[], fill=False, max_paths=20000))
+    else:
+        cap = 0 if tier == "thorough" else 150
+        for fail in (0, 1, 2, 99):
+            for bad in ([], [0], [1], [0, 1]):
+                if fail == 99 and not bad:
+                    continue
+                sc.append(dict(W=2, N=2, fail=fail, bad=bad, fill=(fail + len(bad)) % 2 == 0, max_paths=cap))
+        for fail, bad in ((0, []), (1, []), (99, [0]), (2, [1]), (3, [0, 2])):
+            sc.append(dict(W=1, N=3, fail=fail, bad=bad, fill=True, max_paths=cap))
+        if tier == "thorough":
+            for fail, bad in ((1, []), (99, [1]), (2, [0])):
+                sc.append(dict(W=3, N=2, fail=fail, bad=bad, fill=False, max_paths=8000))
+    return sc
+
+
+def check_par(prop, tier, seed):
+    res = Result()
+    faulty = prop == "C06"
+    states, trans, scopes = par_model_check(tier, faulty, prop)
+    rp, sample = par_replay(tier, scenarios_for(prop, tier), prop, res, prop)
+    rnd = par_random(tier, seed, faulty, prop + "rnd", res, prop, 2000 if tier == "thorough" else 300)
+    free = par_free(tier, seed, res, prop)
+    res.coverage = dict(
+        states=states + rp["graph_states"], transitions=trans + rp["edges"],
+        traces_validated_against_impl=rp["paths"] - rp["divergences"] + rnd["accepted"],
+        model_check_scopes=scopes,
+        graph_edges=rp["edges"], graph_edges_covered_by_replayed_paths=rp["covered"], replayed_paths=rp["paths"],
+        replayed_steps=rp["steps"], model_divergences=rp["divergences"] + rnd["diverged"],
+        random_schedules=rnd["runs"], random_schedule_steps=rnd["steps"], random_traces_accepted_by_TracePar=rnd["accepted"],
+        free_runs=free["runs"], evaluations=rp["paths"] + rnd["runs"] + free["runs"],
+        distinct_nontrivial=rnd["classes"] + free["classes"],
+        rule="(1) TLC explores ParEncoder.tla exhaustively in the listed scopes (all interleavings, invariants + liveness); "
+             "(2) TLC dumps the state graph of small scenarios, graph.py covers every edge with paths, each path is forced "
+             "onto the real threads by the deterministic scheduler and the program counter of every thread and the set of "
+             "runnable threads are compared with the model at every step; (3) seeded random/PCT schedules of random scenarios "
+             "are recorded and validated by TracePar.tla; (4) free-running runs with a watchdog. distinct = distinct "
+             "(W, N, fault position, #bad blocks, eof-fill) classes of (3) and (4)",
+        samples=[sample] + rnd["samples"][:1] + free.get("samples", [])[:1],
+        exhaustive=False)
+    res.assumptions = [
+        "the observation points in par.rs are placed at every blocking operation (a thread that blocks elsewhere is reported as no-progress)",
+        "the single-thread entry point is the reference for bytes and error kind",
+        "TLC's exhaustive result transfers to the code only as far as the replayed paths / validated traces show conformance",
+    ]
+    return res
+
+
 # --------------------------------------------------------------------------- registry
 CHECKS = {}
 for _p in STREAM:
     CHECKS[_p] = check_stream
+CHECKS["C05"] = check_par
+CHECKS["C06"] = check_par
 
 
 def replay(prop, path):
@@ -112,6 +318,16 @@ def replay(prop, path):
         # re-encode the same case with the current working tree and validate it again
         r = check_stream(prop, payload.get("tier", "quick"), payload["seed"], only=payload["case"],
                          outdir=os.path.join(vlib.WORK, f"{prop}-replay"))
+        return r
+    if kind in ("sched", "free"):
+        out = vlib.run_fv(["sched-one", "--file", path], timeout=600)
+        r = Result()
+        mine = [w for w in out["problems"] if w.startswith(prop)]
+        for w in out["problems"]:
+            print("  " + w)
+        if mine:
+            r.failures.append(dict(key=f"{prop} replay {'; '.join(mine)}", what="; ".join(mine), name="replayed",
+                                   replay=payload))
         return r
     raise ToolError(f"cannot replay kind {kind!r}")
 
